@@ -37,7 +37,7 @@ import time
 import types
 
 STREAMS = ['bytes-helpers', 'spec-table', 'scripted-exhaustive', 'scripted-random', 'scripted-boundary',
-           'scripted-malformed', 'real-mechs', 'real-interleaved']
+           'scripted-malformed', 'real-mechs', 'real-interleaved', 'real-overlapping']
 THEOREMS = ['authenticated_only_after_accept', 'refines_spec_server', 'authenticated_iff_spec',
             'mechanism_consulted_iff_table_asks', 'real_mechanisms_never_raise', 'closes_exactly_when',
             'no_line_processed_after_close', 'conforming_client_accepted', 'conforming_client_accepted_from',
@@ -599,7 +599,7 @@ _SEEN = {}
 def report(ctx, key, what, inp, observed=None, expected=None):
     """ctx.violation, but after the first 20 reports of a key only for inputs smaller than the best so far
     (ctx.violation serialises both inputs on every call)."""
-    size = sum(len(r) for r in inp.get('reads', [])) + sum(len(r) for r in inp.get('lines', [])) + 40 * len(inp.get('actions', []))
+    size = sum(len(r) for r in inp.get('reads', [])) + sum(len(r) for r in inp.get('lines', [])) + 40 * len(inp.get('actions', [])) + len(inp.get('schedule', ''))
     st = _SEEN.setdefault((id(ctx), key), [0, size])
     st[0] += 1
     if st[0] > 20 and size >= st[1]:
@@ -1157,9 +1157,14 @@ def resolve_action(act, env, last_data):
             mine = env.home_of_user(env.last_user)
             # a client reads its own keyring; fall back to any home only when the user is unknown
             for h in ([mine] if mine is not None else homes):
+                found = False
                 for ent in (env.file_entries(h) or []):
                     if ent[0] == cid:
-                        cookie = ent[2]
+                        cookie = ent[2]          # the first entry with the announced id, as the specification says
+                        found = True
+                        break
+                if found:
+                    break
         except Exception:
             pass
         cc = CC
@@ -1403,6 +1408,7 @@ def judge_interleaved(ctx, rng):
             for ent in (env.file_entries(env.home_of_user(user)) or []):
                 if ent[0] == cid:
                     cookie = ent[2]
+                    break
             digest = binascii.hexlify(hashlib.sha1(chal + b':' + CC + b':' + cookie).digest())
             return b'DATA ' + binascii.hexlify(CC + b' ' + digest)
         send('A', b'\0AUTH DBUS_COOKIE_SHA1 ' + binascii.hexlify(ua.encode()) + b'\r\n')
@@ -1433,6 +1439,110 @@ def judge_interleaved(ctx, rng):
         ctx.stat('interleaved: cross=%s' % cross)
 
 
+SCHEDULES = [
+    # A gets 1, B gets 2, A completes, C re-uses 1 (file order 2,1), D must not be handed B's id 2 again
+    'a0 a1 r0 b0 a2 a3 r1 b1 r3 b3 r2 b2',
+    'a0 a1 r0 b0 a2 a3 r3 b3 r1 b1 r2 b2',
+    'a0 a1 a2 r1 b1 a3 r0 b0 a4 r2 b2 r3 b3 r4 b4',
+    'a0 a1 x0 a2 a3 r1 b1 r2 b2 r3 b3',
+    'a0 a1 a2 x1 a3 a4 r0 b0 r4 b4 r3 b3 r2 b2',
+    'a0 r0 b0 a1 r1 b1 a2 r2 b2',
+    'a0 a1 a2 a3 r3 b3 r2 b2 r1 b1 r0 b0',
+    'a0 a1 r1 b1 a2 r2 b2 a3 r0 b0 r3 b3',
+]
+
+
+def random_schedule(rng):
+    n = rng.randint(3, 5)
+    seqs = []
+    for i in range(n):
+        seqs.append(rng.choice([['a', 'r', 'b'], ['a', 'r', 'b'], ['a', 'r', 'b'], ['a', 'x'], ['a']]))
+    out = []
+    pos = [0] * n
+    started = 0
+    while True:
+        # sessions start in index order (so that ids are handed out in a known order), continue in any order
+        cand = [i for i in range(n) if pos[i] < len(seqs[i]) and (pos[i] > 0 or i == started)]
+        if not cand:
+            break
+        i = rng.choice(cand)
+        if pos[i] == 0:
+            started += 1
+        out.append('%s%d' % (seqs[i][pos[i]], i))
+        pos[i] += 1
+    return ' '.join(out)
+
+
+def judge_overlapping(ctx, schedule, users, dirstate, frac):
+    """Several connections of users sharing one keyring, DBUS_COOKIE_SHA1 exchanges overlapping in time with
+    completions and cancellations in between.  Every client is conforming: on the challenge it reads the FIRST entry
+    with the announced id from the keyring (as the specification says) and answers sha1(challenge:cc:cookie).
+    The statement: DBUS_COOKIE_SHA1 with the right cookie is accepted.  Implementation only."""
+    spec = {'creds': None, 'users': USERS, 'dirs': {'h1': dirstate, 'h2': 'absent'}, 'files': {}, 'frac': frac}
+    case = {'kind': 'overlapping', 'schedule': schedule, 'users': users, 'dir': dirstate, 'frac': frac}
+    with RealEnv(spec) as env:
+        sess = {}
+
+        def get(i):
+            if i not in sess:
+                proto, t, tr = make_session('real', env={'creds_tuple': None})
+                sess[i] = {'proto': proto, 't': t, 'tr': tr, 'crashed': None, 'resp': None, 'done': False,
+                           'user': users[i % len(users)]}
+            return sess[i]
+
+        def send(i, line):
+            x = get(i)
+            _Cur.tr, _Cur.proto = x['tr'], x['proto']
+            if x['crashed'] is not None:
+                return b''
+            before = len(x['t'].value())
+            x['crashed'] = feed(x['proto'], x['t'], [line])
+            return x['t'].value()[before:]
+        for ev in schedule.split():
+            op, i = ev[0], int(ev[1:])
+            x = get(i)
+            if op == 'a':
+                out = send(i, b'\0AUTH DBUS_COOKIE_SHA1 ' + binascii.hexlify(x['user'].encode()) + b'\r\n')
+                # a conforming client computes its answer as soon as it has the challenge
+                try:
+                    ctxn, cid, chal = binascii.unhexlify(out.split(b'\r\n')[0].split(b' ', 1)[1].strip()).split()
+                    cookie = None
+                    for ent in (env.file_entries(env.home_of_user(x['user'])) or []):
+                        if ent[0] == cid:
+                            cookie = ent[2]
+                            break
+                    if cookie is not None:
+                        digest = binascii.hexlify(hashlib.sha1(chal + b':' + CC + b':' + cookie).digest())
+                        x['resp'] = b'DATA ' + binascii.hexlify(CC + b' ' + digest)
+                    x['challenged'] = True
+                except Exception:
+                    x['challenged'] = False
+            elif op == 'r':
+                send(i, (x['resp'] or b'DATA') + b'\r\n')
+            elif op == 'b':
+                send(i, b'BEGIN\r\n')
+                x['done'] = True
+            elif op == 'x':
+                send(i, b'CANCEL\r\n')
+        ctx.case('real-overlapping', sample=case)
+        ctx.impl_trace()
+        ctx.stat('overlapping: sessions=%d' % len(sess))
+        for i in sorted(sess):
+            x = sess[i]
+            o = 'connection %d: sent=%s closed=%d auth=%d crashed=%s' % (
+                i, hxs(sent_lines(x['t'])), int(bool(x['t'].disconnecting)), x['proto'].authd, x['crashed'])
+            if x['crashed'] is not None:
+                report(ctx, crash_key(x['crashed'], None, None), 'overlapping cookie authentications: %s escapes '
+                       'dataReceived on connection %d' % (x['crashed'], i), case, o, 'a reply per the state table')
+            elif x['done'] and x.get('challenged') and x['resp'] is not None and not x['proto'].authd:
+                report(ctx, 'cookie-right-response-rejected', 'overlapping cookie authentications of users sharing a '
+                       'keyring: connection %d answered its challenge with the cookie stored under the announced id '
+                       'and was not accepted' % i, case, o, 'auth=1')
+            elif x.get('challenged') and x['resp'] is None:
+                report(ctx, 'cookie-right-response-rejected', 'the cookie id announced to connection %d is not in the '
+                       'keyring file' % i, case, o, 'an entry with the announced id')
+
+
 def is_second_step(tr, k):
     """The cookie mechanism was on its second step at handled line k (previous step of the same exchange was a challenge)."""
     for j in range(k - 1, -1, -1):
@@ -1446,7 +1556,11 @@ def is_second_step(tr, k):
 # ===================================================================== corpus / replay / run
 
 def run_case(ctx, case, pending, stream_name='corpus'):
-    if case.get('kind') == 'real':
+    if case.get('kind') == 'overlapping':
+        judge_overlapping(ctx, case['schedule'], case['users'], case.get('dir', 'absent'), case.get('frac', False))
+    elif case.get('kind') == 'interleaved':
+        ctx.note('interleaved cases are generated from the seed; re-run the check with the same VERIF_SEED')
+    elif case.get('kind') == 'real':
         judge_real(ctx, case, pending)
     else:
         reads = [binascii.unhexlify(r) if r != '-' else b'' for r in case['reads']]
@@ -1525,6 +1639,12 @@ def run(ctx):
     flush_model(ctx, pending)
     for _ in range(ctx.scale(quick=60, thorough=1000)):
         judge_interleaved(ctx, rng)
+    for sched in SCHEDULES:
+        for users in (['alice'], ['alice', '7'], ['1000', 'alice', '7']):
+            judge_overlapping(ctx, sched, users, 'absent', False)
+    for _ in range(ctx.scale(quick=60, thorough=1500)):
+        judge_overlapping(ctx, random_schedule(rng), rng.choice([['alice'], ['alice', '7'], ['1000', 'alice']]),
+                          rng.choice(['absent', 'good']), rng.random() < 0.5)
     ctx.exhaustive = False
 
 
